@@ -11,6 +11,7 @@ import (
 	"runtime"
 	"strconv"
 	"sync"
+	"sync/atomic"
 	"time"
 
 	"github.com/VictoriaMetrics/metrics"
@@ -450,24 +451,36 @@ func (m *Manager) startTable(name string, id uint64) error {
 		return m.nh.StartOnDiskReplica(
 			map[uint64]dragonboat.Target{},
 			false,
-			fsm.New(name, m.cfg.Table.DataDir, m.cfg.Table.FS, m.blockCache, m.tableCache, fsm.SnapshotRecoveryType(m.cfg.Table.RecoveryType), func(applied uint64) {
-				if m.cfg.Table.AppliedIndexListener != nil {
-					m.cfg.Table.AppliedIndexListener(name, applied)
-				}
-			}),
+			fsm.New(name, m.cfg.Table.DataDir, m.cfg.Table.FS, m.blockCache, m.tableCache, fsm.SnapshotRecoveryType(m.cfg.Table.RecoveryType), m.appliedIndexListener(name, id)),
 			tableRaftConfig(m.cfg.NodeID, id, m.cfg.Table),
 		)
 	}
 	return m.nh.StartOnDiskReplica(
 		m.members,
 		false,
-		fsm.New(name, m.cfg.Table.DataDir, m.cfg.Table.FS, m.blockCache, m.tableCache, fsm.SnapshotRecoveryType(m.cfg.Table.RecoveryType), func(applied uint64) {
-			if m.cfg.Table.AppliedIndexListener != nil {
-				m.cfg.Table.AppliedIndexListener(name, applied)
-			}
-		}),
+		fsm.New(name, m.cfg.Table.DataDir, m.cfg.Table.FS, m.blockCache, m.tableCache, fsm.SnapshotRecoveryType(m.cfg.Table.RecoveryType), m.appliedIndexListener(name, id)),
 		tableRaftConfig(m.cfg.NodeID, id, m.cfg.Table),
 	)
+}
+
+// appliedIndexListener returns the applied index callback of the shard id of the table.
+// The shard a table is being restored into applies the restored leader index before the table is switched to it,
+// it must not release those who wait for that index until reads of the table are served from it.
+func (m *Manager) appliedIndexListener(name string, id uint64) func(applied uint64) {
+	var serving atomic.Bool
+	return func(applied uint64) {
+		if m.cfg.Table.AppliedIndexListener == nil {
+			return
+		}
+		if !serving.Load() {
+			tbl, _, err := m.getTableVersion(name)
+			if err != nil || tbl.ClusterID != id {
+				return
+			}
+			serving.Store(true)
+		}
+		m.cfg.Table.AppliedIndexListener(name, applied)
+	}
 }
 
 type Cleanup struct {
@@ -560,6 +573,15 @@ func (m *Manager) Restore(name string, reader io.Reader) error {
 	err = m.setTableVersion(tbl, version)
 	if err != nil {
 		return err
+	}
+	// Reads are served from the restored shard from now on, tell those who wait for the table where it stands.
+	if m.cfg.Table.AppliedIndexListener != nil {
+		ctx, cancel := context.WithTimeout(context.Background(), 30*time.Second)
+		defer cancel()
+		active := tbl.AsActive(m.nh)
+		if idx, err := active.LeaderIndex(ctx, false); err == nil {
+			m.cfg.Table.AppliedIndexListener(name, idx.Index)
+		}
 	}
 	return nil
 }
